@@ -4,6 +4,7 @@ package main
 // Every entry registered here is reported in the evidence under trusted_base / assumptions.
 
 import (
+	"math/big"
 	"go/types"
 	"strconv"
 	"strings"
@@ -207,6 +208,51 @@ func registerExterns(w *World) {
 		c.k(st, Val{K: KTuple, Fs: []Val{term(v, tInt), term(e, types.Universe.Lookup("error").Type())}})
 	})
 	w.ext("strconv.Itoa", "Itoa: opaque string", externPure)
+	parseInt := func(unsigned bool) externHandler {
+		return func(ex *Exec, st *State, c *callCtx) {
+			s := c.args[0].T
+			base, ok1 := isIntLit(c.args[1].T)
+			bits, ok2 := isIntLit(c.args[2].T)
+			if !ok1 || !ok2 || base != 10 || bits < 0 || bits > 64 {
+				panic(subsetErr{"strconv.ParseInt/ParseUint with a non-constant or non-decimal base/bit size"})
+			}
+			if bits == 0 {
+				bits = 64
+			}
+			v := ex.fresh("parseint", "Int")
+			e := ex.fresh("parseinterr", "Int")
+			var okT, val, lo, hi string
+			if unsigned {
+				val = "(str.to_int " + s + ")"
+				lo, hi = "0", pow2(int(bits))+" 1"
+				hi = "(- " + hi + ")"
+				okT = and("(str.in_re "+s+" (re.+ (re.range \"0\" \"9\")))", "(<= "+val+" "+hi+")")
+			} else {
+				_, val = atoiTerms(s)
+				lo, hi = "(- "+pow2(int(bits)-1)+")", "(- "+pow2(int(bits)-1)+" 1)"
+				okT = and("(str.in_re "+s+" "+reAtoi+")", "(<= "+lo+" "+val+")", "(<= "+val+" "+hi+")")
+			}
+			st.assume(eq(eq(e, "0"), okT))
+			st.assume("(>= " + e + " 0)")
+			st.assume(implies(okT, eq(v, val)))
+			st.assume("(<= " + lo + " " + v + ")")
+			st.assume("(<= " + v + " " + hi + ")")
+			st.assume(implies(not(eq(e, "0")), sel(st.region("A", arr("Int", "Bool")), e)))
+			rt := c.fn.Signature.Results()
+			c.k(st, Val{K: KTuple, Fs: []Val{term(v, rt.At(0).Type()), term(e, rt.At(1).Type())}})
+		}
+	}
+	w.ext("strconv.ParseInt", "ParseInt(s, 10, bits): err == nil <=> s in [+-]?[0-9]+ and the value fits the bit size; then result == the value (constant base 10 only)", parseInt(false))
+	w.ext("strconv.ParseUint", "ParseUint(s, 10, bits): err == nil <=> s in [0-9]+ and the value fits the bit size; then result == str.to_int(s) (constant base 10 only)", parseInt(true))
+	formatInt := func(ex *Exec, st *State, c *callCtx) {
+		if base, ok := isIntLit(c.args[1].T); !ok || base != 10 {
+			panic(subsetErr{"strconv.FormatInt/FormatUint with a non-decimal base"})
+		}
+		v := c.args[0].T
+		c.k(st, term(ite("(< "+v+" 0)", "(str.++ \"-\" (str.from_int (- "+v+")))", "(str.from_int "+v+")"), tString))
+	}
+	w.ext("strconv.FormatInt", "FormatInt(v, 10): canonical decimal text of v", formatInt)
+	w.ext("strconv.FormatUint", "FormatUint(v, 10): canonical decimal text of v", formatInt)
 
 	// ---- fmt / errors
 	w.ext("fmt.Sprintf", "Sprintf: opaque string", func(ex *Exec, st *State, c *callCtx) {
@@ -954,4 +1000,8 @@ func replaceSymbol(t, name, by string) string {
 		i = end
 	}
 	return b.String()
+}
+
+func pow2(n int) string {
+	return new(big.Int).Lsh(big.NewInt(1), uint(n)).String()
 }
